@@ -3,7 +3,7 @@
 import json, os, sys
 V = os.path.dirname(os.path.dirname(os.path.abspath(__file__)))
 sys.path.insert(0, V)
-from kv.manifest_data import CLAIMED, NOT_APPLICABLE, NOT_YET
+from kv.manifest_data import CLAIMED, NOT_APPLICABLE, NOT_YET, TOL_NOTE
 props = [json.loads(l)["id"] for l in open(os.path.join(V, "properties.jsonl"))]
 checks = []
 for pid in props:
@@ -16,7 +16,7 @@ for pid in props:
             "evidence_file": "/verif/evidence/%s.json" % pid,
             "replay_cmd_template": "/venv/bin/python /verif/check %s --replay {path}" % pid,
             "engine": "kv",
-            "level_claimed": {"category": c.get("category", "other"), "text": c["text"], "design_ref": c.get("design_ref", "DESIGN.md section 6 (%s)" % pid)},
+            "level_claimed": {"category": c.get("category", "other"), "text": c["text"] + TOL_NOTE, "design_ref": c.get("design_ref", "DESIGN.md sections 6 and 10 (%s)" % pid)},
             "level_note": c["note"],
             "technique": c["technique"],
         })
